@@ -2,6 +2,7 @@ import Driver.C06
 import Driver.C07
 import Driver.PumpDrv
 import Driver.E2E
+import Driver.PathMap
 /-!
 `modeldrv`: one request per line on stdin (`<area> <op> <args…>`), one answer per line on stdout.
 -/
@@ -13,6 +14,7 @@ def dispatch (line : String) : String :=
   | "c07" :: rest => C07.handle rest
   | "pump" :: rest => PumpDrv.handle rest
   | "e2e" :: rest => E2E.handle rest
+  | "pathmap" :: rest => PathMap.handle rest
   | _ => "bad-op"
 
 partial def loop (h : IO.FS.Stream) (out : IO.FS.Stream) : IO Unit := do
